@@ -263,6 +263,36 @@ func c05Sizes(rep *Report) (int, int) {
 			rep.Violate("sizes/readable", fmt.Sprintf("after the Set of a %d byte document Get does not return the value (err %v)", size, err), replay)
 		}
 	}
+	// multi-byte characters across the chunk boundary: a string of 2-byte (é) and of 3-byte (☃) characters, shifted by
+	// 0..2 ASCII characters so that for some shift a character straddles byte 100 000 of the document
+	for _, ch := range []string{"é", "☃"} {
+		for shift := 0; shift < len(ch); shift++ {
+			evals++
+			val := strings.Repeat("a", shift) + strings.Repeat(ch, 140000/len(ch))
+			w.Restore(base)
+			w.plugins["T1"].TakeDocs()
+			res := hw.ExecSet(context.Background(), SetReq{Name: "big-utf8", Ops: []ReqOp{upd("T1", "/cont/leafA", val)}}.build(), nil)
+			replay := map[string]interface{}{"kind": "c05-size", "size": len(val), "char": ch, "shift": shift}
+			docs := res.Docs["T1"]
+			if res.Err != nil || len(docs) == 0 {
+				rep.Violate("sizes/set-refused", fmt.Sprintf("a Set of a %d byte string of %q characters is refused: %v", len(val), ch, res.Err), replay)
+				continue
+			}
+			distinct++
+			d := docs[len(docs)-1]
+			if len(d.Doc) != overhead+len(val) {
+				rep.Violate("sizes/bytes-lost", fmt.Sprintf("string of %q characters (shift %d): the candidate document has %d bytes, the plugin received %d bytes in chunks %v", ch, shift, overhead+len(val), len(d.Doc), d.Chunks), replay)
+			}
+			flat, _, err := flattenMiniDoc(d.Doc)
+			if err != nil || flat["/cont/leafA"] != val {
+				rep.Violate("sizes/document-content", fmt.Sprintf("string of %q characters (shift %d): the document the plugin received does not carry the leaf as set (parse error %v)", ch, shift, err), replay)
+			}
+			got, err := w.GetProto(GetQuery{Target: "T1"})
+			if err != nil || got["/cont/leafA"] != c17Norm(gstr(val)) {
+				rep.Violate("sizes/readable", fmt.Sprintf("string of %q characters (shift %d): Get does not return the value (err %v)", ch, shift, err), replay)
+			}
+		}
+	}
 	return evals, distinct
 }
 
